@@ -4,11 +4,11 @@
 //
 // Enumerated completely (see rule in the evidence file):
 //   - corpora: every set of <= 3 distinct documents; a document is a multiset of <= 3 words from
-//     {ab, abc, zed, the(stop word), Ünï};
+//     {ab, abc, zed, the(stop word), abÉ};
 //   - every split of the indexing into 1..3 committed transactions (quick: one document order per
 //     corpus x all compositions; thorough: every document order x all compositions = every ordered
 //     assignment of documents to transactions);
-//   - every query of <= 2 words from {ab, abc, zed, the, Ünï, AB (case variant), nope (unknown)},
+//   - every query of <= 2 words from {ab, abc, zed, the, abÉ, AB (case variant), nope (unknown)},
 //     searched in a fresh transaction.
 //
 // Oracle: an independent BM25 (k1=1.2, b=0.75, idf=ln((N-n+0.5)/(n+0.5)+1)) computed from the
@@ -40,16 +40,16 @@ var ctx = context.Background()
 
 // ---- domain ----
 
-// Vocabulary. Thorough (and replay): 4 terms (ab is a prefix of abc, Ünï needs unicode lower-casing) + a
+// Vocabulary. Thorough (and replay): 4 terms (ab is a prefix of abc - ASCII continuation - and of abé - non-ASCII continuation, which sorts AFTER the posting-key separator "|"; abÉ needs unicode lower-casing) + a
 // stop word. Quick drops the plain term "zed" (see setVocabulary): every index B-tree operation copies a
 // 5000-slot node, which makes a case ~40 ms of CPU, and the quick tier has to stay well under 2 minutes.
-var docWords = []string{"ab", "abc", "zed", "the", "Ünï"}
-var queryWords = []string{"ab", "abc", "zed", "the", "Ünï", "nope", "AB"} // the last one is only used in 3 fixed variants
+var docWords = []string{"ab", "abc", "zed", "the", "abÉ"}
+var queryWords = []string{"ab", "abc", "zed", "the", "abÉ", "nope", "AB"} // the last one is only used in 3 fixed variants
 
 func setVocabulary(thorough bool) {
 	if !thorough {
-		docWords = []string{"ab", "abc", "the", "Ünï"}
-		queryWords = []string{"ab", "abc", "the", "Ünï", "nope", "AB"}
+		docWords = []string{"ab", "abc", "the", "abÉ"}
+		queryWords = []string{"ab", "abc", "the", "abÉ", "nope", "AB"}
 	}
 }
 
@@ -64,8 +64,8 @@ func wordToken(w string) string {
 	switch w {
 	case "the":
 		return ""
-	case "Ünï":
-		return "ünï"
+	case "abÉ":
+		return "abé"
 	case "AB":
 		return "ab"
 	}
@@ -765,7 +765,7 @@ func main() {
 		run.Set("rule", dom+"(a) for one corpus per token-content class (corpora whose documents tokenize to the same multiset of token multisets; representative = the member using the stop word most) EVERY ordered partition of its documents into 1..3 committed infs transactions (13 for 3 documents); (b) every other corpus in one document order and one composition (both rotating through all possibilities)"+qry+"; the one-document-per-transaction cases of the class representatives are searched a second time from a brand-new OS process (nothing cached)"+tail)
 	} else {
 		run.Set("rule", dom+"one corpus per token-content class (corpora whose documents tokenize to the same multiset of token multisets are merged; the representative is the member using the stop word most), one document order per corpus (rotating through all orders), x every composition of the documents into 1..3 committed infs transactions"+qry+"; the one-document-per-transaction cases are searched a second time from a brand-new OS process (nothing cached)"+tail)
-		run.Assumption("quick-tier vocabulary has 3 terms (ab, abc = ab+c, Ünï) + the stop word; the thorough tier adds the plain term zed (56 documents, 29317 corpora). Reason: NewIndex hard-codes slot length 5000 and every B-tree operation copies such a node, so one index case costs ~40 ms CPU")
+		run.Assumption("quick-tier vocabulary has 3 terms (ab, abc = ab+c, abÉ) + the stop word; the thorough tier adds the plain term zed (56 documents, 29317 corpora). Reason: NewIndex hard-codes slot length 5000 and every B-tree operation copies such a node, so one index case costs ~40 ms CPU")
 	}
 	run.Assumption("reference BM25: k1=1.2, b=0.75, idf=ln((N-n+0.5)/(n+0.5)+1), score(d)=sum over query TOKENS (a repeated query term counts twice) of idf*f*(k1+1)/(f+k1*(1-b+b*len(d)/avglen)); N counts every indexed document including those with no tokens")
 	run.Assumption("documents are enumerated as word multisets: Index.Add sees the text only through Tokenize(text) and reduces it to a Go map of frequencies (iteration order random by language definition), so word order cannot be observed; the tokenizer itself is checked over all word sequences and separators (tokenizer_cases)")
